@@ -98,6 +98,25 @@ Example C19_for_bounds_nonvacuous :
   exec_prog p 100 = ([1; 2; 3; 4; 5; 6], Finished).
 Proof. split; [apply wf_progb_ok; vm_compute; reflexivity|]. split; vm_compute; reflexivity. Qed.
 
+(* ---- NEXT uses the most recent FOR record ------------------------------------------------------------
+   A loop left from inside its body (RETURN, GOTO) leaves its record on the FOR stack.  When the same FOR is
+   executed again, NEXT finds the new record first (top-first search), drops the records above it and keeps
+   the stale ones below: the re-entered loop runs with its own end and step. *)
+Theorem C19_next_most_recent : forall newer f older j k,
+  (forall g, In g newer -> rec_at j k g = false) -> rec_at j k f = true ->
+  find_for (newer ++ f :: older) j k = Some (f, older).
+Proof. exact find_for_most_recent. Qed.
+Print Assumptions C19_next_most_recent.
+
+(* 10 A%=5:GOSUB 500:A%=3:GOSUB 500:END / 500 FOR I%=1 TO A%:PRINT I%:IF C%=0 THEN C%=1:RETURN / 510 NEXT:RETURN
+   the second call counts to 3 although the abandoned record (end 5) is still on the stack *)
+Example C19_abandoned_loop_nonvacuous :
+  run_program [SLine 10; SLet 0%nat (EConst 5); SGosub 500; SLet 0%nat (EConst 3); SGosub 500; SEnd;
+               SLine 500; SFor 4%nat (EConst 1) (EVar 0%nat) (EConst 1); SPrint (EVar 4%nat);
+               SIf (ECmp CEq (EVar 2%nat) (EConst 0)) None; SLet 2%nat (EConst 1); SReturn None;
+               SLine 510; SNext []; SReturn None; SEndProg] 100 = ([1; 1; 2; 3], Finished).
+Proof. vm_compute. reflexivity. Qed.
+
 (* ---- GOSUB / RETURN ---------------------------------------------------------------------------------
    GOSUB records the calling statement on top of the stack and jumps; RETURN removes the top record and
    continues after the statement it names (at any depth: C19_nested_refines treats GOSUB as a call). *)
